@@ -8,6 +8,7 @@ mod rcon;
 mod props;
 mod src;
 mod structure;
+mod tsparse;
 
 use ev::Tier;
 
@@ -19,6 +20,8 @@ fn usage() -> ! {
 fn main() {
     comp::remove_env();
     comp::install_panic_hook();
+    // deep nom recursion on generated inputs must not overflow the worker threads' stacks
+    let _ = rayon::ThreadPoolBuilder::new().stack_size(256 << 20).build_global();
     let args: Vec<String> = std::env::args().skip(1).collect();
     if args.is_empty() {
         usage();
